@@ -88,6 +88,30 @@ def is_success_agg(s, adt, succ):
     return rv["k"] == "agg" and rv.get("adt") == adt and rv.get("variant") in succ
 
 
+def ctor_payload_sites(b, adt, succ):
+    """The success variant built by handing its constructor to an adaptor (`data.map(Self::Data)`): the reply is a success exactly when the
+    wrapped payload exists, so the sites that decide are those that *store* a payload — the `Some(..)` constructions the adaptor's
+    receiver derives from.  Returns [(bb, span, variant)]; [] if no constructor of a success variant is used as a function value."""
+    out = []
+    for c in b.calls():
+        if c.macro:
+            continue
+        for a in c.args:
+            if a.get("c") == "const" and (a.get("def") or "").rsplit("::", 1)[0] == T.strip_generics(adt) and (a.get("def") or "").rsplit("::", 1)[-1] in succ:
+                variant = a["def"].rsplit("::", 1)[-1]
+                for o in c.args:
+                    l = F.op_base(o)
+                    if l is None:
+                        continue
+                    b.backward_origins(l, through_call=lambda x: x.is_fn(*F.PASS_THROUGH))
+                    for v in sorted(b._last_visited):
+                        for (bi, si, kind, payload) in b.defs().get(v, []):
+                            if kind == "assign" and not b.blocks[bi].get("cleanup") and payload["rv"]["k"] == "agg" \
+                                    and (payload["rv"].get("adt") or "").endswith("option::Option") and payload["rv"].get("variant") == "Some":
+                                out.append((bi, payload.get("sp") or b.blocks[bi]["stmts"][si].get("sp"), variant))
+    return out
+
+
 def no_error_guards(b, bb):
     """All (description, predicate call) whose 'no error' edge dominates bb (a guard kept in a bool local counts as long as no
     rpc-error can be recorded between computing it and using it)."""
@@ -245,6 +269,13 @@ def r1_reader(chk, fx, root, bodies, adt, succ):
                         chk.instance("C08/R1", "the success guard covers every error list of the reader (%d)" % len(pushed), b.name, loc_of(s.get("sp")),
                                      holds=not miss, key="C08/R1 %s success-guard-misses-an-error-list" % fn,
                                      detail=None if not miss else "rpc-errors collected into the list created at %s do not prevent the success variant" % miss)
+    if n_succ == 0:
+        for b in bodies:
+            for (bi, sp, variant) in ctor_payload_sites(b, adt, succ):
+                n_succ += 1
+                g = no_error_guard(b, bi)
+                chk.instance("C08/R1", "payload of the success variant %s::%s (wrapped after the loop by its constructor) is stored only on the no-error edge"
+                             % (T.short(adt, 1), variant), b.name, loc_of(sp), holds=g is not None, detail=g, key="C08/R1 %s success-not-guarded-by-error-state" % fn)
     if n_succ == 0:
         raise F.AnchorLost("%s constructs no success variant" % root.name)
     # pushes sharing a loop with a success construction need the `pending result is none` guard
